@@ -67,6 +67,10 @@ def jobs(tier, seed):
         units += [(9, 1, [], 2), (8, 2, [2], 2), (6, 3, [3], 2), (8, 2, [2], 1)]
     for (k, c, shape, nt) in units:
         out.append(('unit-k%d-c%d-t%d' % (k, c, nt), dict(kind='unit', k=k, c=c, shape=shape, nt=nt, cls='', method='')))
+    for method in ('central', 'forward', 'backward', 'complex'):
+        for n in (1, 2):
+            for hexp in (4, 7):
+                out.append(('single-step-%s-n%d-h%d' % (method, n, hexp), dict(kind='single', k=n, c=hexp, shape=[], nt=0, cls='', method=method)))
     for cls in ('Derivative', 'Gradient', 'Jacobian', 'Hessdiag', 'Hessian'):
         for method in (('central', 'forward', 'complex') if not th else ('central', 'forward', 'backward', 'complex', 'multicomplex')):
             for dim in ((1, 2) if not th else (1, 2, 3)):
@@ -77,6 +81,8 @@ def jobs(tier, seed):
 def run_job(job, kind, k, c, shape, nt, cls, method):
     if kind == 'unit':
         return unit(job, k, c, tuple(shape), nt)
+    if kind == 'single':
+        return single_step(job, method, k, 2.0 ** -c)
     return record(job, cls, method, c)
 
 
@@ -171,6 +177,44 @@ def _validate_unit(job, k, c, shape, nt, paths, der, steps):
             job.error('unit validation: library shape %s' % (np.shape(val),))
             return
     job.validated += 1
+
+
+def _single_cfg(nd, method, n):
+    order = 1 if method in ('forward', 'backward') else 2
+    return order
+
+
+def single_step(job, method, n, h):
+    """a single user step: the only estimate carries truncation error; the reported error (step-proportional) must cover it
+    on polynomials one and two degrees beyond the exactness degree, coefficients in [-1, 1]"""
+    nd, fd = cm.nd_mods()['nd'], cm.nd_mods()['fd']
+    order = _single_cfg(nd, method, n)
+    rule = fd.LogRule(n=n, method=method, order=order)
+    D = n + rule.method_order - 1
+    x0 = 0.5
+    for extra in (1, 2):
+        names = ['a%d' % p for p in range(D + extra + 1)]
+        coefs = [sn.real_var(nm) for nm in names]
+        box = [z3.And(z3.Real(nm) >= -1, z3.Real(nm) <= 1) for nm in names]
+
+        def harness():
+            with tr.traced(), sn.abstract_division(products=True), cm.quiet():
+                d = nd.Derivative(cm.poly_fun(coefs), step=h, method=method, n=n, order=order, full_output=True)
+                return d(x0)
+        ex = sn.Explorer(harness, assumptions=box, max_paths=64, timeout_ms=20000)
+        paths = list(ex.paths())
+        job.absorb_explorer(ex)
+        exact = sn.lift(cm.poly_deriv_at(coefs, n, Fraction(x0)))
+        for p in paths:
+            if p.exc is not None:
+                job.violation('raises', dict(key='C02:single:raises', kind='single', exc=repr(p.exc)[:200]))
+                continue
+            val, info = p.result
+            v, e = sn.lift(cm.flat_list(val)[0]), sn.lift(cm.flat_list(info.error_estimate)[0])
+            floor = sn.ratval(Fraction(1, 10 ** 10))
+            job.prove('single step: |value - exact| <= error_estimate + 1e-10 (degree D+%d)' % extra,
+                      z3.And(v - exact <= e + floor, exact - v <= e + floor), p.conds(),
+                      dict(key='C02:single:%s:truncation-not-covered' % method, kind='single', names=names, n=n, h=h, extra=extra))
 
 
 # --------------------------------------------------------------------------
@@ -288,6 +332,18 @@ def replay(cex):
     lim, ex, nd = mods['lim'], mods['ex'], mods['nd']
     cfg = cex['config']
     asg = cm.assignment_from_model(cex.get('model', {}))
+    if cfg['kind'] == 'single':
+        method, n, h = cfg['method'], cfg['k'], 2.0 ** -cfg['c']
+        order = 1 if method in ('forward', 'backward') else 2
+        names = cex.get('names', [])
+        cs = [float(asg.get(nm, 0)) for nm in names]
+        with cm.quiet():
+            val, info = nd.Derivative(cm.poly_fun(cs), step=h, method=method, n=n, order=order, full_output=True)(0.5)
+        exact = float(cm.poly_deriv_at(cs, n, 0.5))
+        if abs(float(val) - exact) > float(info.error_estimate) * 1.000001 + 1e-9:
+            return True, ('Derivative(step=%r, method=%s, n=%d, order=%d) on the polynomial %s at 0.5: value %r, exact %r, reported '
+                          'error_estimate %r' % (h, method, n, order, cs, float(val), exact, float(info.error_estimate)))
+        return False, 'true error within the reported estimate'
     if cfg['kind'] == 'unit':
         k, c, shape, nt = cfg['k'], cfg['c'], tuple(cfg['shape']), cfg['nt']
         rng = np.random.default_rng(0)
